@@ -848,6 +848,21 @@ for prop in ("C04", "C05"):
 m("c05-werc20-write-before-gas-check", "C05", "precompiles/werc20/werc20.go",
   "\tctx, writeCache := ctx.CacheContext()\n", "\tctx, writeCache := ctx.CacheContext()\n\twriteCache()\n",
   "(precompiles/werc20.Precompile).Run#handlers-run-on-a-branch", "the branch is written before the method ran")
+m("c02-deposit-mirror-halved", "C02", "precompiles/werc20/tx.go",
+  "\tstateDB.AddBalance(dst, amount)\n\tstateDB.SubBalance(contract.Address(), amount)\n", "\tstateDB.AddBalance(dst, amount)\n",
+  "Deposit#attached-value-handed-back", "deposit credits the caller without debiting the precompile address")
+m("c02-deposit-credits-origin", "C02", "precompiles/werc20/tx.go",
+  "\tdst := contract.Caller()\n", "\tdst := contract.Address()\n",
+  "Deposit#attached-value-handed-back", "deposit hands the value to another account")
+m("c05-commit-writes-live-context", "C05", "x/evm/statedb/statedb.go",
+  "\t\t\tif err := s.keeper.SetAccount(ctx, obj.Address(), obj.account); err != nil {", "\t\t\tif err := s.keeper.SetAccount(s.ctx, obj.Address(), obj.account); err != nil {",
+  "flush-is-all-or-nothing", "one of the flush's writes goes to the live context")
+m("c05-commit-records-before-write", "C05", "x/evm/statedb/statedb.go",
+  "\t\t\t\tcommitted = append(committed, committedSlot{obj, key, dirtyValue})\n", "\t\t\t\tcommitted = append(committed, committedSlot{obj, key, dirtyValue})\n\t\t\t\tobj.transientStorage[key] = dirtyValue\n",
+  "flush-is-all-or-nothing", "slots are recorded as flushed before the branch is written")
+m("c05-commit-branch-never-written", "C05", "x/evm/statedb/statedb.go",
+  "\twriteCache()\n\n\t// Update the pendingStorage", "\t_ = writeCache\n\n\t// Update the pendingStorage",
+  "flush-is-all-or-nothing", "the flush's branch is never merged")
 for prop in ("C16", "C07"):
     m("c%s-gas-meter-without-precharge" % prop[1:], prop, "precompiles/common/precompile.go",
       "sdk.NewGasMeter(initialGas + contract.Gas)", "sdk.NewGasMeter(contract.Gas)",
